@@ -173,6 +173,11 @@ def eval_term(t, leaf):
         if isinstance(t[1], int):
             return t[1]
         raise NotEvaluable(t)
+    if h == "deref" and isinstance(t[1], tuple) and len(t[1]) == 2 and t[1][0] == "ref":
+        return eval_term(t[1][1], leaf)         # *&x (a match binding by reference)
+    if h == "field" and isinstance(t[1], int) and isinstance(t[2], tuple) and len(t[2]) == 3 and t[2][0] == "agg" and t[2][1] == "tuple" \
+            and t[1] < len(t[2][2]):
+        return eval_term(t[2][2][t[1]], leaf)   # (a, b).0
     if h == "cast":
         v = eval_term(t[2], leaf)
         bits = BITS.get(t[1])
